@@ -61,6 +61,8 @@ def run(repo, res, tier):
     for fn in sorted(tf):
         res.oblige("T8", fn, ok=fn not in t8fns)
     common.lexer_yield_rule(repo, res)
+    from .. import pairrules
+    pairrules.rule_pair(repo, res)
     from .. import effects
     effects.rule_e5(repo, res)
     # the tokens the skip helpers discard silently are exactly the grammar's comments and white space: a predicate
